@@ -1509,8 +1509,11 @@ def unknown_accounts(ctx, res, binary=None, env=None, sanitizer=False):
     cases, lines, plans = [], [], []
     for k in range(ctx.scale(120, 800)):
         text, regs, rows = unknown_journal(rng)
-        wheres = sorted({r[4] for r in regs if r[0] != 'dated' and r[3] and r[1].split(':')[-1] == 'Unknown'})
-        cls = '+'.join(wheres) if wheres else ('dated' if any(r[3] for r in regs) else 'no-table')
+        # the class names the registrants WITHOUT a transaction that meet a non-empty table at an account
+        # called Unknown; failing those, whether an account directive or only dated postings do
+        hit = [r for r in regs if r[3] and r[1].split(':')[-1] == 'Unknown']
+        wheres = sorted({r[4] for r in hit if r[0] == 'noxact'})
+        cls = '+'.join(wheres) if wheres else 'directive' if any(r[0] == 'nopost' for r in hit) else 'dated' if hit else 'no-look-up'
         first = len(lines)
         for i, (who, name, payee, table, where) in enumerate(regs):
             lines.append(lib.sx(['unknown', 'u%d.%d' % (k, i), who, name, payee.encode().hex() if payee else '-',
